@@ -115,6 +115,8 @@ inline vj::value project(const V& v) {
         }
         vj::value r = vj::value::object();
         r.set("ok", true).set("crash", "").set("shape", vj::value(shp)).set("elems", el);
+        // the element count the object itself reports (TraceOps: it is the product of the shape)
+        r.set("size", (long)nm::size(v));
         return r;
     }
 }
